@@ -8,6 +8,7 @@ import (
 	"go/types"
 	"os"
 	"sort"
+	"strings"
 
 	"golang.org/x/tools/go/ssa"
 )
@@ -269,9 +270,9 @@ func ruleDir(p *Prog, r *Report, c dirCfg) {
 			return "CheckSum"
 		}
 		if ph, ok := v.(*ssa.Phi); ok {
-			// running offset: one edge adds len(Content) to the phi itself
+			// running offset: one edge adds len(Content) to the phi itself, possibly rounded up (alignment)
 			for _, e := range ph.Edges {
-				if bo, ok := stripConv(e).(*ssa.BinOp); ok && bo.Op == token.ADD && (stripConv(bo.X) == ssa.Value(ph) && isLenContent(bo.Y) || stripConv(bo.Y) == ssa.Value(ph) && isLenContent(bo.X)) {
+				if _, ok := advanceOf(e, ph, isLenContent); ok {
 					return "Offset"
 				}
 			}
@@ -325,17 +326,22 @@ func ruleDir(p *Prog, r *Report, c dirCfg) {
 	if len(offPhis) < 2 {
 		r.Bad(rule, key, p.Pos(writer.Pos()), "expected two running offsets (directory loop and body copy loop) advancing by len(Content)")
 	} else {
-		init := func(ph *ssa.Phi) ssa.Value {
+		init := func(ph *ssa.Phi) (ssa.Value, string) {
+			var start ssa.Value
+			shape := ""
 			for _, e := range ph.Edges {
-				if bo, ok := stripConv(e).(*ssa.BinOp); ok && bo.Op == token.ADD && (stripConv(bo.X) == ssa.Value(ph) || stripConv(bo.Y) == ssa.Value(ph)) {
+				if sh, ok := advanceOf(e, ph, isLenContent); ok {
+					shape = sh
 					continue
 				}
-				return stripConv(e)
+				start = stripConv(e)
 			}
-			return nil
+			return start, shape
 		}
-		a, b := init(offPhis[0]), init(offPhis[1])
-		same := a != nil && a == b
+		a, shA := init(offPhis[0])
+		b, shB := init(offPhis[1])
+		// same start value and same rounding of the advance in both loops
+		same := a != nil && a == b && shA == shB
 		// the copy destination must be sliced at the second running offset
 		usedByCopy := false
 		for _, blk := range writer.Blocks {
@@ -357,6 +363,10 @@ func ruleDir(p *Prog, r *Report, c dirCfg) {
 			fmt.Println("DEBUG body-offset", len(offPhis), a, b, same, usedByCopy)
 		}
 		r.Check(same && usedByCopy, rule, key, p.Pos(writer.Pos()), "directory offsets and body positions follow the same recurrence (same start value, advanced by len(Content)) and each Content is copied at its running offset")
+		// the sfnt specification: every table starts on a 4-byte boundary
+		keyA := c.writer + "/alignment"
+		r.Instance(rule, keyA)
+		r.Check(strings.Contains(shA, "&^3(+3(") && strings.Contains(shB, "&^3(+3("), rule, keyA, p.Pos(writer.Pos()), "the running offset is rounded up to a multiple of 4 after each table ((x+3)&^3), in the directory and in the body")
 	}
 	// header: numTables
 	hw, hr := p.Func(c.pkg, "", c.hdrWriter), p.Func(c.pkg, "", c.hdrReader)
@@ -397,5 +407,54 @@ func controlsC19(cp *Prog, r *Report) {
 	})
 	expectControl(r, "R-DIR(bad)", func(cr *Report) {
 		ruleDir(cp, cr, dirCfg{pkg: "wr", writer: "WriteBad", hdrWriter: "headerBad", reader: "readEntry", hdrReader: "readHeader", entryType: "entry", tableType: "Table", checksum: "sumBad"})
-	}, "entry.CheckSum", "entry.Offset", "entry.Length", "WriteBad/body-offset", "header.numTables")
+	}, "entry.CheckSum", "entry.Offset", "entry.Length", "WriteBad/body-offset", "WriteBad/alignment", "header.numTables")
+}
+
+// advanceOf: e is ph + len(Content), possibly rounded by a pure function of one argument (alignTable) or by the usual
+// (x + k) &^ k arithmetic; returns a description of the rounding so that two recurrences can be compared.
+func advanceOf(e ssa.Value, ph *ssa.Phi, isLen func(ssa.Value) bool) (string, bool) {
+	shape := ""
+	v := stripConv(e)
+	for i := 0; i < 6; i++ {
+		switch x := v.(type) {
+		case *ssa.Call:
+			if sc := x.Common().StaticCallee(); sc != nil && len(x.Common().Args) == 1 && pureAccessor(sc) {
+				// the arithmetic of the callee on its parameter
+				ret := sc.Blocks[0].Instrs[len(sc.Blocks[0].Instrs)-1].(*ssa.Return)
+				w := stripConv(ret.Results[0])
+				for j := 0; j < 6; j++ {
+					bo, ok := w.(*ssa.BinOp)
+					if !ok {
+						break
+					}
+					k, isK := intConst(bo.Y)
+					if !isK {
+						break
+					}
+					shape += fmt.Sprintf("%s%d(", bo.Op, k)
+					w = stripConv(bo.X)
+				}
+				v = stripConv(x.Common().Args[0])
+				continue
+			}
+		case *ssa.BinOp:
+			if k, ok := intConst(x.Y); ok && (x.Op == token.AND_NOT || x.Op == token.AND) {
+				shape += fmt.Sprintf("%s%d(", x.Op, k)
+				v = stripConv(x.X)
+				continue
+			}
+			if x.Op == token.ADD {
+				if k, ok := intConst(x.Y); ok {
+					shape += fmt.Sprintf("%s%d(", x.Op, k)
+					v = stripConv(x.X)
+					continue
+				}
+				if stripConv(x.X) == ssa.Value(ph) && isLen(x.Y) || stripConv(x.Y) == ssa.Value(ph) && isLen(x.X) {
+					return shape, true
+				}
+			}
+		}
+		break
+	}
+	return "", false
 }
